@@ -37,7 +37,10 @@ mut("revert-levellimit-maximize", ["C10", "C13"], revert="e436120")
 mut("revert-nbc-str-id", ["C15"], revert="0623a42")
 mut("revert-marker-zero", ["C20"], revert="2db197a")
 mut("revert-cma-maximize", ["C13"], revert="92244c5")
-mut("revert-local-maximize", ["C13"], revert="fd6ceb9")
+# the commit itself no longer reverts cleanly since the LocalDeme NaN fix rewrote the neighbouring lines: same effect as an edit
+mut("revert-local-maximize", ["C13"], [("pyhms/demes/local_deme.py",
+    "        self._sign = -1.0 if self._problem.maximize else 1.0",
+    "        self._sign = 1.0")])
 mut("revert-r5s-maximize", ["C13"], revert="8bc4006")
 
 # --- catalogue of DESIGN section 6
